@@ -7,9 +7,21 @@ use std::panic::{catch_unwind, AssertUnwindSafe};
 use std::rc::Rc;
 use suiron::*;
 
+/// the slice a recorded call (slice "trace") belongs to, by its functor
+fn slice_of(case: &Value) -> String {
+    let s = case["slice"].as_str().unwrap_or("");
+    if s != "trace" { return s.to_string(); }
+    match case["f"].as_str().unwrap_or("") {
+        "equal" | "less_than" | "less_than_or_equal" | "greater_than" | "greater_than_or_equal" => "cmp",
+        "append" => "append", "include" | "exclude" => "filter", "count" => "count", "functor" => "functor",
+        "print" | "print_list" | "nl" => "print", "unify" => "fnunify", _ => "other",
+    }.to_string()
+}
+
 pub fn props_of(case: &Value) -> Vec<&'static str> {
     if case["status"].as_str() == Some("out") { return vec![]; }
-    match case["slice"].as_str().unwrap_or("") {
+    match slice_of(case).as_str() {
+        "fnunify" => vec!["C13", "C12", "C17"],
         "cmp" => vec!["C14"],
         "append" => vec!["C16", "C15"],
         "filter" => vec!["C17", "C15"],
@@ -23,7 +35,8 @@ fn has_list_element(t: &Tm) -> bool {
 }
 
 pub fn replay(case: &Value) -> Vec<Obs> {
-    let slice = case["slice"].as_str().unwrap_or("");
+    let slice_s = slice_of(case);
+    let slice = slice_s.as_str();
     let f = case["f"].as_str().unwrap().to_string();
     let args_t: Vec<Tm> = case["args"].as_array().unwrap().iter().map(tm_from_json).collect();
     let prior_t: Vec<Tm> = case["prior"].as_array().unwrap().iter().map(tm_from_json).collect();
@@ -40,7 +53,7 @@ pub fn replay(case: &Value) -> Vec<Obs> {
         }
     }
     let nvars = prior_t.len();
-    let names = ["$X", "$Y", "$Z", "$O", "$V"];
+    let names = if case["slice"].as_str() == Some("trace") { ["$X", "$Y", "$Z", "$W", "$V", "$U", "$T", "$S", "$R"] } else { ["$X", "$Y", "$Z", "$O", "$V", "$U", "$T", "$S", "$R"] };
     let mut watch: Vec<Tm> = (1..=nvars).map(|i| Tm::Var(i, names[i - 1].to_string())).collect();
     watch.extend(args_t.iter().cloned());
     let what = format!("{}({})  prior{{{}}}", f, show_vec(&args_t).replace(" ; ", ", "),
@@ -78,7 +91,7 @@ pub fn replay(case: &Value) -> Vec<Obs> {
     }
     let detail = format!("{} :: model {} [{}] / impl {} [{}] {}{}", what, exp_status, show_vec(&exp_res), status, show_vec(&res), note,
                          if again { " ; a second request succeeded again" } else { "" });
-    let owner: &'static str = match slice { "cmp" => "C14", "append" => "C16", _ => "C17" };
+    let owner: &'static str = match slice { "cmp" => "C14", "append" => "C16", "fnunify" => "C13", _ => "C17" };
     let mut obs = vec![];
     let mut ok = agrees && !again;
     if slice == "cmp" && status == "ok" && ss != *prior { ok = false; }
